@@ -56,25 +56,22 @@ theorem flat_first (hE : CastIdem E) (alts : List TraitType) (v : Val) :
         simp only [fastAlone]
         cases fastComplex E ds v <;> rfl
 
-theorem pySel_false_first (alts : List TraitType) (v : Val)
-    (h : ∀ t ∈ alts, descOf E t = none → hasPy t = true) :
+theorem pySel_false_first (alts : List TraitType) (v : Val) :
     pySel E false alts v = firstAccept ((slowAlts E alts).map (ctraitValidate E · v)) := by
   induction alts with
   | nil => simp [pySel, slowAlts, firstAccept]
   | cons t ts ih =>
-    have ih' := ih (fun t' ht' => h t' (by simp [ht']))
     cases hd : descOf E t with
     | some d =>
       have : slowAlts E (t :: ts) = slowAlts E ts := by simp [slowAlts, hd]
-      simp [pySel, hd, this, ih']
+      simp [pySel, hd, this, ih]
     | none =>
       have hs : slowAlts E (t :: ts) = t :: slowAlts E ts := by simp [slowAlts, hd]
-      have hp := h t (by simp) hd
-      have hct : ctraitValidate E t v = pyValidate E t v := by
-        simp [ctraitValidate, ctraitValidateWith, hd, hp]
+      have hct : ctraitValidate E t v = (if hasPy t then pyValidate E t v else .ok v) := by
+        simp [ctraitValidate, ctraitValidateWith, hd]
       rw [hs, List.map_cons, firstAccept_cons, hct]
-      simp only [pySel, hd, Option.isSome_none, beq_self_eq_true, if_true, ih']
-      cases pyValidate E t v <;> rfl
+      simp only [pySel, hd, Option.isSome_none, beq_self_eq_true, if_true, ih, Bool.false_or]
+      cases (if hasPy t = true then pyValidate E t v else Res.ok v) <;> rfl
 
 /-- The descriptor of Either(alts[, None]), when it has one. -/
 theorem descOf_either_eq (alts : List TraitType) (wn : Bool) (d : Desc)
@@ -90,7 +87,6 @@ theorem descOf_either_eq (alts : List TraitType) (wn : Bool) (d : Desc)
     rw [← hd, ← hf, List.append_assoc]
 
 theorem either_first (hE : CastIdem E) (alts : List TraitType) (wn : Bool) (d : Desc) (v : Val)
-    (hslow : ∀ t ∈ alts, descOf E t = none → hasPy t = true)
     (hd : descOf E (.either alts wn) = some d) :
     fastAlone E d v = firstAccept (
       (fastAlts E alts).map (ctraitValidate E · v) ++
@@ -107,7 +103,7 @@ theorem either_first (hE : CastIdem E) (alts : List TraitType) (wn : Bool) (d : 
     apply firstAccept_append_congr (flat_first E hE alts v)
     apply firstAccept_append_congr
     · cases wn <;> simp [altAlone, fastAlone]
-    · rw [← pySel_false_first E alts v hslow]
+    · rw [← pySel_false_first E alts v]
       by_cases ha : anySlow E alts = true
       · simp [ha, altAlone, firstAccept_single]
       · have ha' : anySlow E alts = false := by simpa using ha
